@@ -6,9 +6,12 @@ package ur
 // extension.Introspection{}.
 
 import (
+	"bytes"
 	"context"
 	"encoding/json"
 	"fmt"
+	"net/http"
+	"net/http/httptest"
 	"time"
 
 	"github.com/vektah/gqlparser/v2"
@@ -16,16 +19,90 @@ import (
 
 	"github.com/99designs/gqlgen/graphql"
 	"github.com/99designs/gqlgen/graphql/executor"
+	"github.com/99designs/gqlgen/graphql/handler"
 	"github.com/99designs/gqlgen/graphql/handler/extension"
+	"github.com/99designs/gqlgen/graphql/handler/transport"
+	"github.com/vektah/gqlparser/v2/gqlerror"
 )
 
 // C16NewES is set by the c16 probe's main: generated NewExecutableSchema with Config.Schema = s.
 var C16NewES func(s *ast.Schema) graphql.ExecutableSchema
 
+// C16Item is one registration, in registration order: K = "intro" (the real
+// extension.Introspection{}), "mut" (a user OperationContextMutator extension),
+// "mw" (an AroundOperations guard). What a user mutator / guard does is decided
+// PER REQUEST: it reads the request header X-C16-G<index> ("t": set
+// DisableIntrospection, "f": clear it, anything else: leave it alone), the way
+// a guard keyed on authentication does.
+type C16Item struct {
+	K string `json:"k"`
+	W string `json:"w"`
+}
+
 type C16Run struct {
 	Query string         `json:"query"`
 	Vars  map[string]any `json:"vars"`
-	Ext   bool           `json:"ext"` // install extension.Introspection{}
+	Ext   bool           `json:"ext"`   // no chain given: install extension.Introspection{} alone
+	Chain []C16Item      `json:"chain"` // registrations in order (overrides Ext when HasChain)
+	// HasChain distinguishes "nothing registered" from "no chain given"
+	HasChain bool `json:"has_chain"`
+	// HTTP: go through handler.Server + transport.POST (srv.Use / srv.AroundOperations, ServeHTTP)
+	// instead of executor.Executor directly
+	HTTP bool `json:"http"`
+}
+
+// c16Mutator is a user extension that decides about introspection per request when the
+// operation context is created.
+type c16Mutator struct{ hdr string }
+
+func (m c16Mutator) ExtensionName() string                          { return "C16Mutator" + m.hdr }
+func (m c16Mutator) Validate(schema graphql.ExecutableSchema) error { return nil }
+func (m c16Mutator) MutateOperationContext(ctx context.Context, opCtx *graphql.OperationContext) *gqlerror.Error {
+	c16Decide(opCtx, m.hdr)
+	return nil
+}
+
+func c16Decide(opCtx *graphql.OperationContext, hdr string) {
+	switch opCtx.Headers.Get(hdr) {
+	case "t":
+		opCtx.DisableIntrospection = true
+	case "f":
+		opCtx.DisableIntrospection = false
+	}
+}
+
+type c16Registrar interface {
+	Use(extension graphql.HandlerExtension)
+	AroundOperations(f graphql.OperationMiddleware)
+}
+
+// c16Register performs the registrations in order and returns the request headers carrying
+// this request's decisions.
+func c16Register(srv c16Registrar, r C16Run) http.Header {
+	h := http.Header{}
+	if !r.HasChain {
+		if r.Ext {
+			srv.Use(extension.Introspection{})
+		}
+		return h
+	}
+	for i, it := range r.Chain {
+		hdr := fmt.Sprintf("X-C16-G%d", i+1)
+		switch it.K {
+		case "intro":
+			srv.Use(extension.Introspection{})
+		case "mut":
+			srv.Use(c16Mutator{hdr: hdr})
+			h.Set(hdr, it.W)
+		case "mw":
+			srv.AroundOperations(func(ctx context.Context, next graphql.OperationHandler) graphql.ResponseHandler {
+				c16Decide(graphql.GetOperationContext(ctx), hdr)
+				return next(ctx)
+			})
+			h.Set(hdr, it.W)
+		}
+	}
+	return h
 }
 
 type C16Cmd struct {
@@ -78,11 +155,20 @@ func init() {
 
 func c16Exec(es graphql.ExecutableSchema, r C16Run) (out C16Out) {
 	out.GateErrs = []string{}
-	ex := executor.New(es)
-	ex.SetRecoverFunc(RecoverFunc)
-	ex.SetErrorPresenter(ErrorPresenter)
-	if r.Ext {
-		ex.Use(extension.Introspection{})
+	var ex *executor.Executor
+	var srv *handler.Server
+	var hdrs http.Header
+	if r.HTTP {
+		srv = handler.New(es)
+		srv.AddTransport(transport.POST{})
+		srv.SetRecoverFunc(RecoverFunc)
+		srv.SetErrorPresenter(ErrorPresenter)
+		hdrs = c16Register(srv, r)
+	} else {
+		ex = executor.New(es)
+		ex.SetRecoverFunc(RecoverFunc)
+		ex.SetErrorPresenter(ErrorPresenter)
+		hdrs = c16Register(ex, r)
 	}
 	run := NewRun()
 	base, cancel := context.WithCancel(WithRun(context.Background(), run))
@@ -100,8 +186,33 @@ func c16Exec(es graphql.ExecutableSchema, r C16Run) (out C16Out) {
 				perr = fmt.Sprintf("escaped panic on caller: %v", rec)
 			}
 		}()
+		if r.HTTP {
+			body, _ := json.Marshal(map[string]any{"query": r.Query, "variables": r.Vars})
+			req := httptest.NewRequest(http.MethodPost, "/query", bytes.NewReader(body)).WithContext(base)
+			req.Header = hdrs.Clone()
+			req.Header.Set("Content-Type", "application/json")
+			rec := httptest.NewRecorder()
+			srv.ServeHTTP(rec, req)
+			raw = rec.Body.Bytes()
+			if rec.Code != http.StatusOK {
+				// the operation did not pass CreateOperationContext (parse / validation / variables)
+				var resp struct {
+					Errors []struct {
+						Message string `json:"message"`
+					} `json:"errors"`
+				}
+				_ = json.Unmarshal(raw, &resp)
+				for _, e := range resp.Errors {
+					out.GateErrs = append(out.GateErrs, e.Message)
+				}
+				if len(out.GateErrs) == 0 {
+					out.GateErrs = append(out.GateErrs, fmt.Sprintf("HTTP status %d", rec.Code))
+				}
+			}
+			return
+		}
 		ctx := graphql.StartOperationTrace(base)
-		opCtx, errs := ex.CreateOperationContext(ctx, &graphql.RawParams{Query: r.Query, Variables: r.Vars})
+		opCtx, errs := ex.CreateOperationContext(ctx, &graphql.RawParams{Query: r.Query, Variables: r.Vars, Headers: hdrs})
 		if errs != nil {
 			for _, e := range errs {
 				out.GateErrs = append(out.GateErrs, e.Message)
